@@ -328,6 +328,7 @@ def gen_world(rs: int, P: dict) -> dict:
              "len_mode": rp.choice(["one", "few", "few", "horizon", "mixed", "mixed"]),
              "subset_mode": rp.choice(["all", "occupied", "random", "random"]),
              "empty_prob": rp.choice([0, 0, 0.1, 0.3])}
+    party["mapping_type"] = sub(rs, "mapping_type").choice(["dict"] * 8 + ["ordered", "defaultdict_list", "defaultdict_row"])
     if P.get("near_level_pilots"):
         party["near_level_pilots"] = P["near_level_pilots"]
     if sorted_party:
